@@ -220,12 +220,20 @@ impl Degree {
 
     pub fn complement(&self) -> Degree {
         use Degree::*;
-        Quadratic
+        if *self == Constant {
+            Constant
+        } else {
+            NonQuadratic
+        }
     }
 
     pub fn bool_not(&self) -> Degree {
         use Degree::*;
-        Quadratic
+        if *self == Constant {
+            Constant
+        } else {
+            NonQuadratic
+        }
     }
 }
 
